@@ -23,9 +23,11 @@ class Spec(SeqSpec):
             self._roots = [('empty', {}, []), ]
         else:
             self.depth = 4
-            self.max_variants = 2
-            self._roots = [(n, {}, p) for n, p in ROOT_PREFIXES.items()]
-            self._roots += [('empty-sha1-p0-big', {'hash_type': 'sha1', 'loose_prefix_len': 0, 'pack_size_target': 4 * 1024 ** 3}, [])]
+            self.max_variants = 1
+            shallow = {'depth': 3, 'max_variants': 2}
+            self._roots = [('empty', {}, [])]
+            self._roots += [(n + '-d3v2', {}, p, shallow) for n, p in ROOT_PREFIXES.items()]
+            self._roots += [('empty-sha1-p0-big-d3v2', {'hash_type': 'sha1', 'loose_prefix_len': 0, 'pack_size_target': 4 * 1024 ** 3}, [], shallow)]
 
     def roots(self):
         return self._roots
@@ -129,5 +131,8 @@ def run(tier, report):
 def replay(case):
     from ..seqx import replay_history
     spec = TwoHandleSpec('thorough') if str(case.get('root', '')).endswith('-2h') else Spec('thorough')
+    if not str(case.get('root', '')).endswith('-2h'):
+        from .c02 import all_roots
+        spec._roots = all_roots()
     spec.listdir_order = case.get('listdir_order', 'native')
     return replay_history(spec, case['root'], [_tuplify(o) for o in case['history']])
